@@ -111,6 +111,13 @@ def durable_copy_rule(ctx, rid):
     return rr
 
 
+def _parents_of(n):
+    p = getattr(n, "_parent", None)
+    while p is not None:
+        yield p
+        p = getattr(p, "_parent", None)
+
+
 def check_bad_rule(ctx, rid):
     rr = ctx.rule(rid, "check_bad removes unreadable and wrong-length results (when delete_bad) and reports them", floor=3)
     f = ctx.prog.need_func(CROP + ".Crop.check_bad")
@@ -171,42 +178,110 @@ def check_bad_rule(ctx, rid):
         for b_, l_ in g.succ[t_.id]:
             if l_ in ("t", "f"):
                 to_rm[l_] = rn.id == b_ or rn.id in g.reachable(start=b_, blocked_nodes=heads, feasible=fl.feasible)
-        if len(flag) == 1 and to_rm.get("t") != to_rm.get("f"):
-            fname = flag[0]
+        if to_rm.get("t") != to_rm.get("f"):
             bad_when = True if to_rm.get("t") else False
-            sets = [(n_, n_.ast.value) for n_ in g.nodes if n_.kind == "stmt" and isinstance(n_.ast, ast.Assign) and norm(n_.ast.targets[0]) == fname]
-            in_handler = [v_ for n_, v_ in sets if any(n_.ast is x for h in broad for x in ast.walk(h.ast))]
-            outside = [v_ for n_, v_ in sets if not any(n_.ast is x for h in broad for x in ast.walk(h.ast))]
+            # the statements of one loop iteration up to the decision, interpreted by the analyser in two scenarios: the result
+            # load succeeds (try body completes) or fails (statements of the try body before the load, then the handler)
+            loop_ = None
+            for p_ in _parents_of(t_.ast):
+                if isinstance(p_, ast.For):
+                    loop_ = p_
+                    break
+            need(loop_ is not None, "idiom changed: the check_bad decision is not inside the loop over the result files")
+            OPAQUE = object
 
-            def rep(vs, default):
-                if not vs:
-                    return default
-                v0 = vs[0]
-                return v0.value if isinstance(v0, ast.Constant) else "<the exception>"
-            v_unread, v_read = rep(in_handler, None), rep(outside, None)
-            if len(in_handler) == 1 and len(outside) >= 1 and v_unread != v_read:
-                wrong = []
-                for unread in (True, False):
-                    for l1, l2 in ((2, 2), (1, 2)):
-                        def on_call(c_, ev_, st_, l1=l1, l2=l2):
-                            if norm(c_.func) == "len" and len(c_.args) == 1:
-                                return l1 if norm(c_.args[0]) == RESULT else l2
-                            return NotImplemented
-                        try:
-                            tv_ = bool(IntEval({fname: v_unread if unread else v_read, RESULT: (), BATCH: ()}, on_call).ev(t_.ast, {}))
-                        except AnalysisError:
-                            tv_ = None
-                        if tv_ is not None and (tv_ == bad_when) != (unread or l1 != l2):
-                            wrong.append((unread, l1, l2, tv_ == bad_when))
-                if wrong:
-                    unread, l1, l2, got = wrong[0]
-                    rr.bad(ctx.finding(rid, f, t_.ast, "check_bad decides `%s`: for a result that is %s with %d entries for a batch of %d it %s (expected: bad iff unreadable or of the wrong length): bad results are kept or good ones deleted" % (
-                        norm(t_.ast), "unreadable" if unread else "readable", l1, l2, "treats it as bad" if got else "treats it as good"), construct="check-bad-decision"), "check_bad decision")
-                else:
-                    rr.ok("check_bad: a result is treated as bad iff unreadable or len(result) != len(batch) (truth table; flag `%s` = %r when unreadable, %r otherwise)" % (fname, v_unread, v_read))
-            elif sets:
-                rr.bad(ctx.finding(rid, f, sets[0][0].ast, "the unreadable indicator `%s` has the same value (%r) after a failing and after a good load: unreadable results are taken for good ones or the reverse" % (fname, v_unread),
-                                   construct="check-bad-flag"), "check_bad flag")
+            def scenario(unread, l1, l2):
+                st = {}
+
+                def on_call(c_, ev_, st_):
+                    if norm(c_.func) == "len" and len(c_.args) == 1:
+                        return l1 if norm(c_.args[0]) == RESULT else l2 if norm(c_.args[0]) == BATCH else NotImplemented
+                    return NotImplemented
+                ev = IntEval({}, on_call)
+
+                def assign(stmt):
+                    try:
+                        v = ev.ev(stmt.value, st)
+                    except (AnalysisError, KeyError, IndexError, TypeError):
+                        v = OPAQUE()
+                    for t in stmt.targets:
+                        if isinstance(t, ast.Name):
+                            st[t.id] = v
+
+                def run(stmts):
+                    for s_ in stmts:
+                        if any(x is t_.ast for x in ast.walk(s_)) and not isinstance(s_, ast.Try):
+                            return "decision"
+                        if isinstance(s_, ast.Assign):
+                            assign(s_)
+                        elif isinstance(s_, ast.Try):
+                            has_load = any(x is lc for x in ast.walk(ast.Module(body=s_.body, type_ignores=[])))
+                            if has_load and unread:
+                                for b_ in s_.body:
+                                    if any(x is lc for x in ast.walk(b_)):
+                                        break
+                                    if isinstance(b_, ast.Assign):
+                                        assign(b_)
+                                h = s_.handlers[0]
+                                if h.name:
+                                    st[h.name] = "<the exception>"
+                                r = run(h.body)
+                            else:
+                                r = run(s_.body)
+                                if r is None:
+                                    r = run(s_.orelse)
+                            if r is None:
+                                r = run(s_.finalbody)
+                            if r is not None:
+                                return r
+                        elif isinstance(s_, ast.If):
+                            try:
+                                tv = bool(ev.ev(s_.test, st))
+                            except (AnalysisError, KeyError, TypeError):
+                                raise AnalysisError("idiom changed: a test before the check_bad decision cannot be evaluated: `%s`" % norm(s_.test)[:60])
+                            r = run(s_.body if tv else s_.orelse)
+                            if r is not None:
+                                return r
+                        elif isinstance(s_, (ast.Expr, ast.Pass, ast.AugAssign)):
+                            continue
+                        elif isinstance(s_, (ast.Continue, ast.Break, ast.Return, ast.Raise)):
+                            return "left"
+                        else:
+                            raise AnalysisError("idiom changed: statement before the check_bad decision: `%s`" % norm(s_)[:60])
+                    return None
+                r = run(loop_.body)
+                if r != "decision":
+                    return None
+                if unread and RESULT in st:
+                    pass
+                if unread:
+                    st.pop(RESULT, None)           # the load never bound it
+                try:
+                    return bool(ev.ev(t_.ast, st))
+                except KeyError:
+                    return "unbound"
+                except (AnalysisError, TypeError):
+                    # `len(result)` of an unbound name is only reached if the flag did not short-circuit
+                    return "unbound" if unread else None
+            wrong, evaluated = [], 0
+            for unread in (True, False):
+                for l1, l2 in ((2, 2), (1, 2)):
+                    tv_ = scenario(unread, l1, l2)
+                    if tv_ is None:
+                        continue
+                    evaluated += 1
+                    if tv_ == "unbound":
+                        wrong.append((unread, l1, l2, "raises on the unbound result"))
+                    elif (tv_ == bad_when) != (unread or l1 != l2):
+                        wrong.append((unread, l1, l2, "treats it as bad" if tv_ == bad_when else "treats it as good"))
+            if evaluated < 4:
+                raise AnalysisError("idiom changed: the check_bad decision `%s` could be evaluated in %d of 4 scenarios only" % (norm(t_.ast)[:60], evaluated))
+            if wrong:
+                unread, l1, l2, got = wrong[0]
+                rr.bad(ctx.finding(rid, f, t_.ast, "check_bad decides `%s`: for a result that is %s with %d entries for a batch of %d it %s (expected: bad iff unreadable or of the wrong length): bad results are kept or good ones deleted" % (
+                    norm(t_.ast), "unreadable" if unread else "readable", l1, l2, got), construct="check-bad-decision"), "check_bad decision")
+            else:
+                rr.ok("check_bad: a result is treated as bad iff unreadable or len(result) != len(batch) (the loop body up to the decision interpreted in the 4 scenarios readable / unreadable x equal / unequal length)")
     fl2 = Flow(g, {"delete_bad": FALSE}).run()
     if rn.id in fl2.visited:
         rr.bad(ctx.finding(rid, f, rc, "check_bad removes results although delete_bad is false", construct="check-bad-delete-false"), "delete_bad honoured")
